@@ -14,13 +14,13 @@ Inductive vals := Seed (seed n : N) | Lst (l : list N).
 
 Definition gen_u16 (seed i : N) : N :=
   if seed =? 0 then 0 else if seed =? 1 then 65535
-  else (seed * 7919 + i * 25173 + (i / 8) * 4099 + 13849) mod 65536.
+  else N.land (seed * 7919 + i * 25173 + N.shiftr i 3 * 4099 + 13849) 65535.   (* = (.. + (i / 8) * 4099 + ..) mod 65536 *)
 Fixpoint gen_list (fuel : nat) (seed i : N) : list N :=
   match fuel with O => [] | S f => gen_u16 seed i :: gen_list f seed (i + 1) end.
 Definition expand (v : vals) : list N :=
   match v with Seed s n => gen_list (N.to_nat n) s 0 | Lst l => l end.
 Definition to_coil (seeded : bool) (v : N) : bool :=
-  if seeded then N.odd (v / 16) else negb (v =? 0).
+  if seeded then N.testbit v 4 else negb (v =? 0).   (* (v / 16) mod 2 = 1 *)
 Definition expand_bits (v : vals) : list bool :=
   match v with
   | Seed s n => if s =? 0 then repeat false (N.to_nat n) else if s =? 1 then repeat true (N.to_nat n)
